@@ -341,6 +341,17 @@ func runC25(c *Ctx) {
 					callNames = append(callNames, "FieldToken")
 				case 4, 5:
 					e := c.genBExpr(2, h)
+					switch c.intn(4) {
+					case 0: // a base assembled from reusable sub-filters: nested groups flattened by the constructor
+						e = bs.And(bs.And(c.genBExpr(0, h), c.genBExpr(0, h)), c.genBExpr(1, h))
+					case 1: // a base received over the wire
+						src := bs.And(c.genBExpr(0, h), c.genBExpr(0, h), c.genBExpr(1, h))
+						data, _ := json.Marshal(src)
+						var dec bs.BloomExpression
+						if json.Unmarshal(data, &dec) == nil && validUTF8JSON(data) {
+							e = dec
+						}
+					}
 					b.Match(e)
 					replay = append(replay, func(x *bs.QueryBuilder) { x.Match(e) })
 					denB = &e
@@ -357,6 +368,9 @@ func runC25(c *Ctx) {
 					e := c.genRExpr(2, h)
 					for !regexAcceptable(&e) {
 						e = c.genRExpr(2, h)
+					}
+					if c.chance(0.4) {
+						e = bs.RegexAnd(bs.RegexAnd(bs.FieldRegex(c.pickField(h), "o"), bs.FieldRegex(c.pickField(h), "^j")), bs.FieldRegex(c.pickField(h), "."))
 					}
 					b.MatchRegex(e)
 					replay = append(replay, func(x *bs.QueryBuilder) { x.MatchRegex(e) })
